@@ -24,7 +24,9 @@ macro_rules! stream {
 stream!(s4, Moments4, "moments4_stream");
 stream!(s5, M5, "moments5_stream");
 stream!(s6, M6, "moments6_stream");
+stream!(s7, M7, "moments7_stream");
 stream!(s8, M8, "moments8_stream");
+stream!(s9, M9, "moments9_stream");
 stream!(s10, M10, "moments10_stream");
 
 /// Rescale (by an exact power of two) so that the order-N arithmetic
@@ -133,7 +135,7 @@ impl Check for Cross {
 }
 
 pub fn run(cx: &Ctx) {
-    cx.set_rule("cases = data sets over the C01 domain rescaled by an exact power of two so that n*max|x|^N < 1e300 and rho_N*u > 1e-290 (one in five pushed to the top of that domain, one in five to its bottom), fed one observation at a time to define_moments! types of order N in {4 (crate export Moments4), 5, 6, 8, 10}; len, mean, central_moment(p) and standardized_moment(p) for every p <= N, sample_variance, sample_skewness and sample_excess_kurtosis judged against exact central moments (scale rho_p, constant 2^(p+2)); the fixed values central_moment(0)=1, (1)=0, standardized_moment(0)=n, (1)=0, (2)=1 bit-for-bit; plus cross-agreement with Mean/Variance/Skewness/Kurtosis within two envelopes. Non-trivial = n >= 3 with non-zero spread; distinct = hash of (check, sequence bits)");
+    cx.set_rule("cases = data sets over the C01 domain rescaled by an exact power of two so that n*max|x|^N < 1e300 and rho_N*u > 1e-290 (one in five pushed to the top of that domain, one in five to its bottom), fed one observation at a time to define_moments! types of order N in {4 (crate export Moments4), 5, 6, 7, 8, 9, 10}; len, mean, central_moment(p) and standardized_moment(p) for every p <= N, sample_variance, sample_skewness and sample_excess_kurtosis judged against exact central moments (scale rho_p, constant 2^(p+2)); the fixed values central_moment(0)=1, (1)=0, standardized_moment(0)=n, (1)=0, (2)=1 bit-for-bit; plus cross-agreement with Mean/Variance/Skewness/Kurtosis within two envelopes. Non-trivial = n >= 3 with non-zero spread; distinct = hash of (check, sequence bits)");
     cx.assume("exact oracle and envelopes as in C01; data violating the order-N arithmetic preconditions are discarded and counted");
     let w = cx.workers;
     let cases = cx.by(1000, 15000);
@@ -148,7 +150,9 @@ pub fn run(cx: &Ctx) {
     go!(s4(), 4);
     go!(s5(), 5);
     go!(s6(), 6);
+    go!(s7(), 7);
     go!(s8(), 8);
+    go!(s9(), 9);
     go!(s10(), 10);
     let strat = move || gen::dataset(2, mid, big, 11.9).prop_map(|xs| Xs { xs: rescale_for_order(&xs, 6) });
     cx.run_pt(&Cross, cases, w, strat, "Moments4/M6 vs Mean, Variance, Skewness, Kurtosis");
@@ -165,7 +169,9 @@ pub fn replay(check: &str, case: &serde_json::Value) -> Option<Result<(), String
         "moments4_stream" => Some(replay_case(&s4(), case)),
         "moments5_stream" => Some(replay_case(&s5(), case)),
         "moments6_stream" => Some(replay_case(&s6(), case)),
+        "moments7_stream" => Some(replay_case(&s7(), case)),
         "moments8_stream" => Some(replay_case(&s8(), case)),
+        "moments9_stream" => Some(replay_case(&s9(), case)),
         "moments10_stream" => Some(replay_case(&s10(), case)),
         "cross_agreement" => Some(replay_case(&Cross, case)),
         _ => None,
